@@ -1,14 +1,22 @@
 #!/bin/bash
-# usage: tools_seedtest.sh <patch.diff> <prop ids...>   applies the seed to /repo, runs the checks, reverts
+# usage: tools_seedtest.sh <patch.diff> <prop ids...>
+# applies the seed to a scratch worktree of /repo's HEAD (/tmp/seedrepo; other work keeps reading /repo undisturbed), runs the
+# checks against it with output to a scratch verif dir (so /verif/evidence keeps describing the unchanged tree), and reverts.
 set -u
 patch=$1; shift
-cd /repo || exit 2
+wt=/tmp/seedrepo; sv=/tmp/seedverif
+(
+flock 9
+[ -d $wt ] || git -C /repo worktree add --detach $wt HEAD >/dev/null 2>&1
+git -C $wt checkout -q --detach $(git -C /repo rev-parse HEAD) && git -C $wt checkout -q -- . && git -C $wt clean -fdq
+mkdir -p $sv; cp /verif/known_findings.json $sv/
+cd $wt || exit 2
 if ! git apply --check "$patch" 2>/dev/null; then echo "PATCH DOES NOT APPLY: $patch"; exit 2; fi
 git apply "$patch"
 for p in "$@"; do
-  out=$(/verif/bin/nebcheck -p "$p" 2>&1); code=$?
+  out=$(NEBCHECK_REPO=$wt NEBCHECK_VERIF=$sv /verif/bin/nebcheck -p "$p" 2>&1); code=$?
   echo "== $p exit=$code"
   echo "$out" | grep -E "^  rule=|VIOLATION|UNDECIDED|KNOWN" | cut -c1-400
 done
-git -C /repo checkout -- .
-git -C /repo status --short | head -3
+git -C $wt checkout -q -- .
+) 9>/tmp/seedtest.lock
